@@ -4,6 +4,11 @@ Monitor (E4): real master started as `python -m gunicorn` with a pid file, on a 
 bind, under client load; the harness walks through upgrade histories (USR2, TERM/QUIT of the old or
 the new master, a second USR2 while one is pending, a second upgrade after promotion) and observes
 client outcomes, the process tree, the pid files, the listening address and the socket file.
+Further histories: H9-H11 an upgrade attempt that fails on the new side (pre_exec hook raises / the new release cannot load
+the application / the directory the server was started from has been moved away), H12 the old master exits and the process
+that started it does not collect it for a while (promotion is observed while the old master is still a zombie), H13 the old
+master has a child of its own that is neither a worker nor the new master (started by a server hook) and that exits while the
+upgrade is pending, then a second USR2 and TERM of the old master.
 """
 import json
 import os
@@ -16,10 +21,29 @@ from vlib.common import Run, rng_for
 
 PROP = "C14"
 RULE = ("scenario = (history in {H1 USR2+TERM old, H2 USR2+QUIT old, H3 USR2+TERM new, H4 USR2+QUIT new, H5 USR2+USR2+TERM old, "
-        "H6 USR2+TERM old+USR2+TERM promoted}, bind in {tcp, unix}, worker class, signal timing); distinct = scenario tuple; every "
+        "H6 USR2+TERM old+USR2+TERM promoted, H7-H10, H11 USR2 with the start directory moved away, H12 USR2+TERM/QUIT old left "
+        "uncollected, H13 USR2+exit of a non-worker child of the old master+USR2+TERM old}, bind in {tcp, unix}, worker class, signal "
+        "timing); distinct = scenario tuple; every "
         "scenario is non-trivial (each has two masters alive under client load)")
 
 HISTORIES = ["H1", "H2", "H3", "H4", "H5", "H6", "H8", "H7", "H9", "H10"]
+LATER_HISTORIES = ["H11", "H12", "H13"]        # generated after the others, with their own generator
+
+# H13: a when_ready hook of the first master starts a process of its own (it ends when the file "helper_go" appears)
+HELPER_HOOK = ("_when_ready_orig = when_ready\n"
+               "def when_ready(server):\n"
+               "    _when_ready_orig(server)\n"
+               "    if not _os.environ.get('GUNICORN_PID'):\n"
+               "        import subprocess as _sp\n"
+               "        _go = _os.path.join(_os.path.dirname(_os.path.abspath(__file__)), 'helper_go')\n"
+               "        server._verif_helper = _sp.Popen(['sh', '-c', 'while [ ! -e \"$0\" ]; do sleep 0.05; done', _go])\n"
+               "        _ev('helper', hpid=server._verif_helper.pid)\n")
+
+
+def proc_state(e4, pid):
+    """'Z' for an exited process nobody has waited for yet, None once it is gone altogether."""
+    ent = e4.proc_table().get(pid)
+    return ent[1] if ent else None
 
 
 def read_pid(path):
@@ -147,27 +171,62 @@ def run_scenario(run, e4, sc):
             "import os, sys, time, signal, json\n"
             "if os.environ.get('GUNICORN_PID') and os.path.exists(os.path.join(os.path.dirname(os.path.abspath(__file__)), 'fail_boot')):\n"
             "    raise RuntimeError('scripted failure while loading the application in the new release')\n", 1)
+    if hist == "H13":
+        conf_extra = HELPER_HOOK
     srv = e4.Server("c14", worker_class=wc, workers=nworkers, settings=settings, bind=sc["bind"], app_source=app_source,
                     conf_extra=conf_extra)
     pidfile = os.path.join(srv.dir, "u.pid")
     srv.write_conf(pidfile=pidfile)
+    start_dir = None
+    if hist == "H11":
+        # the server is started from a directory of its own (a release directory) that is moved away while it runs: the forked
+        # child of a USR2 cannot go back there - again the new side failing, the running master is not to be touched
+        start_dir = os.path.join(srv.dir, "current")
+        os.mkdir(start_dir, 0o755)
+        srv.start_cwd = start_dir
+        srv.env["PWD"] = start_dir
+    lag = e4.LagProbe()
+    lag.start()
+    helper = None
     stop = threading.Event()
     threads = []
     log = []
     try:
         srv.start()
         old = srv.master_pid
-        w_old = srv.wait_workers(nworkers, 25)
+        if hist == "H13":
+            # the master has one more child than it has workers
+            w_all = srv.wait_workers(nworkers + 1, 25, booted=False)
+            helper = next((e["hpid"] for e in srv.events() if e["kind"] == "helper"), None)
+            if not w_all or helper not in w_all:
+                return v, "server with a helper process did not boot: %s" % srv.stderr()[-300:], info
+            w_old = [p for p in w_all if p != helper]
+            if not wait_until(lambda: set(w_old) <= set(e["wpid"] for e in srv.events() if e["kind"] == "post_worker_init"), 20):
+                return v, "workers did not finish booting", info
+        else:
+            w_old = srv.wait_workers(nworkers, 25)
         if not w_old or not srv.wait_listening(5):
             return v, "server did not boot: %s" % srv.stderr()[-300:], info
+        if start_dir:
+            try:
+                if os.readlink("/proc/%d/cwd" % old) != start_dir:
+                    return v, "the master does not run in the start directory made for it", info
+            except OSError:
+                return v, "the master's working directory cannot be read", info
         for i in range(4):
             t = threading.Thread(target=client_loop, args=(e4, srv, stop, log, i), daemon=True)
             t.start()
             threads.append(t)
         time.sleep(sc["delay0"])
-        if hist in ("H9", "H10"):
+        if hist in ("H9", "H10", "H11"):
             flag = os.path.join(srv.dir, "fail_exec" if hist == "H9" else "fail_boot")
-            open(flag, "w").close()
+            if hist == "H11":
+                if sc.get("how") == "rmdir":
+                    os.rmdir(start_dir)
+                else:
+                    os.rename(start_dir, start_dir + ".old")
+            else:
+                open(flag, "w").close()
             n_exec = len([e for e in srv.events() if e["kind"] == "pre_exec"])
             srv.signal(signal.SIGUSR2, old)
             if not wait_until(lambda: len([e for e in srv.events() if e["kind"] == "pre_exec"]) > n_exec, 10):
@@ -187,7 +246,11 @@ def run_scenario(run, e4, sc):
             # master's workers, socket file and pid file are not its to touch
             t0 = time.monotonic()
             lost = None
+            failed_children = set(e["pid"] for e in srv.events() if e["kind"] == "pre_exec" and e["pid"] != old)
             while time.monotonic() - t0 < settings["graceful_timeout"] + 3:
+                if hist == "H11" and time.monotonic() - t0 > 2.0 and not any(e4.alive(p) for p in failed_children) and \
+                        all(p in w_old for p in srv.children_of(old)):
+                    break       # the forked child that could not go back to the start directory is gone for 2 s: nothing more to come
                 if srv.bind_kind == "unix" and not os.path.exists(srv.sockpath):
                     lost = lost or ("unix-socket-file-removed-by-failed-upgrade", "the socket file of the running master disappeared")
                 if read_pid(pidfile) != old:
@@ -202,7 +265,19 @@ def run_scenario(run, e4, sc):
             if not lost and set(w_now) != set(w_old):
                 v.append(("workers-killed-by-failed-upgrade", "the running master's workers %s were replaced (%s) although only the upgrade "
                           "attempt failed" % (w_old, w_now)))
-            os.unlink(flag)
+            if hist == "H11":
+                if not e4.alive(old):
+                    v.append(("old-master-stopped-by-failed-upgrade", "USR2 with the start directory moved away: the running master %d is "
+                              "gone: %s" % (old, [ln for ln in srv.error_log().splitlines() if "rror" in ln][-3:])))
+                    return v, None, info
+                # the release directory is back
+                if sc.get("how") == "rmdir":
+                    os.mkdir(start_dir, 0o755)
+                else:
+                    os.rename(start_dir + ".old", start_dir)
+                run.count("upgrade_attempts_without_start_dir")
+            else:
+                os.unlink(flag)
             stop.set()
             for t in threads:
                 t.join(15)
@@ -297,17 +372,38 @@ def run_scenario(run, e4, sc):
             run.count("both_live_pidfile_checks")
         # both serve: the answering pids must include workers of both masters eventually (not judged), at least no failures
         time.sleep(sc["delay1"])
-        if hist == "H5":
+        if hist == "H13":
+            # the old master's own helper process ends now, while the upgrade is pending; the master collects it
+            open(os.path.join(srv.dir, "helper_go"), "w").close()
+            if not wait_until(lambda: e4.proc_table().get(helper, (None,))[0] != old, 8):
+                return v, "the old master did not collect its helper process (state %s)" % proc_state(e4, helper), info
+            time.sleep(0.3)
+            if not (e4.alive(old) and e4.alive(new)):
+                v.append(("master-died-when-its-helper-process-exited", "old master alive: %s, new master alive: %s after a child of the old "
+                          "master that is not a worker exited: %s" % (e4.alive(old), e4.alive(new), srv.error_log()[-300:])))
+                return v, None, info
+            run.count("non_worker_child_exit_while_upgrade_pending")
+        if hist in ("H5", "H13"):
             before = set(srv.session_pids())
+            n_exec = len([e for e in srv.events() if e["kind"] == "pre_exec"])
             srv.signal(signal.SIGUSR2, old)
             time.sleep(1.5)
             masters = [p for p in srv.session_pids() if p not in before and p not in srv.worker_pids(old) and p not in srv.worker_pids(new)]
             ready = set(e["pid"] for e in srv.events() if e["kind"] == "when_ready")
             third = [p for p in ready if p not in (old, new) and e4.alive(p)]
+            n_exec2 = len([e for e in srv.events() if e["kind"] == "pre_exec"])
             if third:
                 v.append(("second-usr2-created-third-master", "masters %s after a second USR2 while an upgrade was pending" % third))
+            elif n_exec2 > n_exec:
+                # no third master stayed (with a pid file it stumbles over the '.2' file), but the signal was acted upon: the old
+                # master forked and ran the pre_exec hook again
+                v.append(("second-usr2-not-ignored", "a second USR2 while the upgrade to master %d was pending made the old master %d fork "
+                          "and run pre_exec again (%d -> %d pre_exec events): %s" % (new, old, n_exec, n_exec2, [
+                              ln for ln in srv.error_log().splitlines() if "usr2" in ln.lower() or "Already running" in ln][-3:])))
             else:
                 run.count("second_usr2_ignored_checks")
+                if hist == "H13":
+                    run.count("second_usr2_ignored_after_non_worker_child_exit_checks")
         if hist == "H7":
             # the documented back-out: stop the old master's workers (WINCH), then bring them back (HUP), stop the new master
             srv.signal(signal.SIGWINCH, old)
@@ -335,12 +431,39 @@ def run_scenario(run, e4, sc):
             final_stop(e4, srv, old, pidfile, v, run)
             return v, None, info
         # ---- who exits first ---------------------------------------------------------------------------
-        graceful = hist in ("H1", "H3", "H5", "H6")
-        if hist in ("H1", "H2", "H5", "H6"):
-            victim, survivor, sig = old, new, (signal.SIGTERM if hist != "H2" else signal.SIGQUIT)
+        graceful = hist in ("H1", "H3", "H5", "H6", "H13") or (hist == "H12" and sc.get("sig") != "QUIT")
+        if hist in ("H1", "H2", "H5", "H6", "H12", "H13"):
+            victim, survivor, sig = old, new, (signal.SIGTERM if hist != "H2" and sc.get("sig") != "QUIT" else signal.SIGQUIT)
         else:
             victim, survivor, sig = new, old, (signal.SIGTERM if hist == "H3" else signal.SIGQUIT)
+        t_sig = time.monotonic()
         srv.signal(sig, victim)
+        if hist == "H12":
+            # whoever started the old master (this harness) does not wait() for it yet: it has exited - sockets closed, pid file
+            # removed - and stays in the process table as a zombie.  "Gone" for the statement: the new master takes the configured
+            # pid-file name now, not when somebody gets round to collecting the exit status
+            if not wait_until(lambda: not e4.alive(old), 15, step=0.02):
+                v.append(("master-did-not-exit", "master %d did not exit 15 s after signal %d" % (victim, sig)))
+                return v, None, info
+            t_z = time.monotonic()
+            if proc_state(e4, old) != "Z":
+                return v, "the old master was collected by somebody else: nothing to observe", info
+            promoted = wait_until(lambda: read_pid(pidfile) == new and not os.path.exists(pidfile + ".2"), 6.0)
+            t_p = time.monotonic()
+            if proc_state(e4, old) != "Z":
+                return v, "the old master was collected during the observation", info
+            info["promoted_after_exit_s"] = round(t_p - t_z, 2) if promoted else None
+            if not promoted:
+                if lag.max_lag(since=t_sig) > 0.5:
+                    return v, "no promotion within 6 s but scheduling lag was %.2f s" % lag.max_lag(since=t_sig), info
+                if not e4.alive(new):
+                    v.append(("survivor-died", "master %d died after master %d exited: %s" % (new, old, srv.error_log()[-300:])))
+                    return v, None, info
+                v.append(("not-promoted-while-old-master-unreaped", "the old master %d has exited (state Z: the process that started it has "
+                          "not collected it yet); %.1f s later the new master %d is still recorded under %s.2 (%r) and %s holds %r" % (
+                              old, t_p - t_z, new, pidfile, read_pid(pidfile + ".2"), pidfile, read_pid(pidfile))))
+            else:
+                run.count("promotion_before_old_master_is_collected_checks")
         st = srv.wait_exit(victim, 15)
         if st is None:
             v.append(("master-did-not-exit", "master %d did not exit 15 s after signal %d" % (victim, sig)))
@@ -394,6 +517,7 @@ def run_scenario(run, e4, sc):
         return v, None, info
     finally:
         stop.set()
+        lag.stop_flag = True
         srv.cleanup()
 
 
@@ -416,6 +540,18 @@ def scenarios(tier, seed):
     for h in (["H6"] if tier == "quick" else ["H1", "H3", "H6", "H8"]):
         out.append({"history": h, "bind": "tcpname", "class": rng.choice(["sync", "gthread", "gevent"]),
                     "delay0": rng.choice([0.3, 0.6]), "delay1": rng.choice([0.3, 0.8])})
+    # later additions, own generator (the scenarios above stay what they were)
+    r4 = rng_for(seed, "c14-later")
+    for rep in range(reps):
+        for h in LATER_HISTORIES:
+            for bind in ("tcp", "unix"):
+                sc = {"history": h, "bind": bind, "class": r4.choice(["sync", "sync", "gthread", "gevent"]),
+                      "delay0": r4.choice([0.3, 0.6]), "delay1": r4.choice([0.3, 0.8])}
+                if h == "H11":
+                    sc["how"] = r4.choice(["rename", "rmdir"])
+                if h == "H12":
+                    sc["sig"] = r4.choice(["TERM", "TERM", "QUIT"])
+                out.append(sc)
     for i, sc in enumerate(out):
         sc["seed"] = seed
         sc["idx"] = i
@@ -432,12 +568,12 @@ def shard(sh):
         if reason is None or v:
             break
         run.count("retries_after_inconclusive")
-    run.case(json.dumps({k: sc[k] for k in ("history", "bind", "class", "delay0", "delay1")}, sort_keys=True))
+    run.case(json.dumps({k: sc[k] for k in ("history", "bind", "class", "delay0", "delay1", "how", "sig") if k in sc}, sort_keys=True))
     run.count("scenarios")
     run.count("history/" + sc["history"])
     run.count("bind/" + sc["bind"])
     for mech, summary in v:
-        run.violation(mech, summary + " | scenario=%s info=%s" % ({k: sc[k] for k in ("history", "bind", "class")}, info), sc)
+        run.violation(mech, summary + " | scenario=%s info=%s" % ({k: sc[k] for k in ("history", "bind", "class", "how", "sig") if k in sc}, info), sc)
     if reason is not None and not v:
         if "scheduling lag" in reason:
             run.count("cells_skipped_for_scheduling_lag")      # measured lag made the wall-clock judgement unsafe, three times
@@ -451,12 +587,22 @@ def main(tier, seed):
     run = Run(PROP, tier, seed, "exploration", RULE)
     run.require("scenarios", "upgrades_started", "both_live_pidfile_checks", "second_usr2_ignored_checks", "first_exit_observed",
                 "single_master_state_checks", "second_upgrade_works_checks", "client_requests", "bind/tcp", "bind/unix",
-                "history/H1", "history/H3", "history/H5", "history/H6", "history/H8", "history/H7", "history/H9", "history/H10", "winch_backout_checks", "final_stop_checks", "respawn_after_upgrade_checks")
+                "history/H1", "history/H3", "history/H5", "history/H6", "history/H8", "history/H7", "history/H9", "history/H10", "winch_backout_checks", "final_stop_checks", "respawn_after_upgrade_checks",
+                "history/H11", "history/H12", "history/H13", "upgrade_attempts_without_start_dir",
+                "promotion_before_old_master_is_collected_checks", "non_worker_child_exit_while_upgrade_pending",
+                "second_usr2_ignored_after_non_worker_child_exit_checks")
     shards = [{"scenario": sc, "seed": seed, "tier": tier} for sc in scenarios(tier, seed)]
     run.assumptions = [
         "the new master is identified as the live child of the old master that emitted when_ready and is not one of its workers",
         "a QUIT of a master (H2/H4) aborts its workers' requests by design: only refused connections are judged there",
         "H7 (daemonized master: USR2, WINCH old, HUP old, TERM new) is the documented back-out",
+        "H12: 'once the old master is gone' = once it has exited; whether the process that started it has already collected the exit "
+        "status is not the new master's business. Promotion (configured pid-file name holds the new pid, '.2' gone) is awaited for 6 s "
+        "while the old master is a zombie; not judged when it was collected meanwhile or under scheduling lag above 0.5 s",
+        "H13: a child of the old master that is neither a worker nor the new master (started by a when_ready hook, ends on request) "
+        "exits while the upgrade is pending; 'a further USR2 is ignored' = no third master and no second run of the pre_exec hook",
+        "H11: the start directory is renamed / removed before USR2 and put back afterwards; the attempt itself may fail, the running "
+        "master's socket file, pid file, workers and clients are judged as in H9",
     ]
     common.run_sharded(run, shards, timeout=900 if tier == "quick" else 3600, nproc=min(8, common.NCPU))
     return run.finish()
